@@ -123,9 +123,26 @@ def worker(scratch):
                 fn(ctypes.addressof(sim), dt)
                 res = " ".join(d2h(c) for i in range(n) for c in getp(sim.particles[i + 1]))
                 sim = None
+            elif op == "jump":
+                which, tpt, nactive, dt, m0 = t[2], int(t[3]), int(t[4]), h2d(t[5]), h2d(t[6])
+                vals = [h2d(s) for s in t[7:]]
+                n = len(vals) // 7
+                sim = rebound.Simulation()
+                sim.add(m=m0)
+                for i in range(n):
+                    sim.add(m=vals[7 * i], x=vals[7 * i + 1], y=vals[7 * i + 2], z=vals[7 * i + 3],
+                            vx=vals[7 * i + 4], vy=vals[7 * i + 5], vz=vals[7 * i + 6])
+                sim.N_active = nactive
+                sim.testparticle_type = tpt
+                fn = clib.reb_integrator_mercurius_jump_step if which == "mercurius" else clib.reb_integrator_trace_jump_step
+                fn.argtypes = [ctypes.c_void_p, ctypes.c_double]
+                fn.restype = None
+                fn(ctypes.addressof(sim), dt)
+                res = " ".join(d2h(c) for i in range(n) for c in getp(sim.particles[i + 1]))
+                sim = None
             elif op == "step":
-                integ, coord = t[2], t[3]
-                v = [h2d(s) for s in t[4:]]
+                integ, coord, nact, tpt = t[2], t[3], int(t[4]), int(t[5])
+                v = [h2d(s) for s in t[6:]]
                 G, m0, m1 = v[0:3]
                 st, dt = v[3:9], v[9]
                 off = v[10:16] if len(v) >= 16 else [0.0] * 6
@@ -134,6 +151,8 @@ def worker(scratch):
                 sim.add(m=m0, x=off[0], y=off[1], z=off[2], vx=off[3], vy=off[4], vz=off[5])
                 sim.add(m=m1, x=off[0] + st[0], y=off[1] + st[1], z=off[2] + st[2],
                         vx=off[3] + st[3], vy=off[4] + st[4], vz=off[5] + st[5])
+                sim.N_active = nact                 # -1: all active
+                sim.testparticle_type = tpt
                 sim.integrator = integ
                 if integ == "whfast":
                     sim.ri_whfast.coordinates = COORD_PY[coord]
@@ -144,7 +163,8 @@ def worker(scratch):
                 clib.reb_simulation_step(ctypes.byref(sim))
                 p0, p1 = sim.particles[0], sim.particles[1]
                 a, b = getp(p0), getp(p1)
-                mode = int(sim.ri_trace._current_C) if integ == "trace" else 0
+                # TRACE: 1 = pericentre switch fired, 2 = a planet-planet/star encounter was integrated with BS
+                mode = (int(sim.ri_trace._current_C) + (2 if int(sim.ri_trace._encounter_N) > 1 else 0)) if integ == "trace" else 0
                 res = " ".join(d2h(b[i] - a[i]) for i in range(6)) + " " + d2h(sim.t) + " %d" % mode
                 sim = None
             else:
@@ -815,6 +835,45 @@ def run_(c):
     if hdis:
         c.corr_break("%d of %d reb_integrator_mercurius_kepler_step / reb_integrator_trace_whfast_step calls differ from the model (M = G*particles[0].m)" % (hdis, len(hkeep)), hfirst)
 
+    # ---------------------------------------------------------------- MERCURIUS / TRACE jump steps (exported): particle range of the momentum sum
+    nj = 400 if c.thorough else 60
+    jl, jm, jmeta = [], [], []
+    for i in range(nj):
+        rng = c.rng.fork()
+        which = ("mercurius", "trace")[i % 2]
+        n = rng.randint(1, 5)
+        tpt = rng.randint(0, 1)
+        nactive = rng.choice([-1, 1, 1] + list(range(1, n + 2)))
+        nact1 = n if nactive == -1 else nactive - 1
+        dt = rng.normal() * 10 ** rng.uniform(-3, 1)
+        m0 = 10 ** rng.uniform(-3, 3)
+        parts = [[m0 * 10 ** rng.uniform(-6, 0) if rng.chance(0.8) else 0.0] + [rng.normal() for _ in range(6)] for _ in range(n)]
+        jl.append("jump %d %s %d %d %s %s %s" % (i, which, tpt, nactive, d2h(dt), d2h(m0), " ".join(d2h(v) for pp in parts for v in pp)))
+        for comp in range(3):
+            jm.append("jump %s %d %d %s %s %s" % (which, tpt, nact1, d2h(dt), d2h(m0),
+                                                  " ".join("%s %s %s" % (d2h(pp[0]), d2h(pp[4 + comp]), d2h(pp[1 + comp])) for pp in parts)))
+        jmeta.append((which, tpt, nactive, n, parts))
+    jmo = run_driver(exe, jm)
+    jro = real.run(jl)
+    jdis, jfirst = 0, None
+    for i in range(nj):
+        which, tpt, nactive, n, parts = jmeta[i]
+        a = jro.get(str(i), "").split()
+        c.count(("jump", which, tpt, nactive, n))
+        good = len(a) == 6 * n
+        if good:
+            for comp in range(3):
+                mres = jmo[3 * i + comp].split()
+                good = good and mres == [a[6 * q + comp] for q in range(n)]
+            good = good and all(a[6 * q + 3 + comp] == d2h(parts[q][4 + comp]) for q in range(n) for comp in range(3))
+        if not good:
+            jdis += 1
+            if jfirst is None:
+                jfirst = {"routine": which, "testparticle_type": tpt, "N_active": nactive, "n": n, "model": jmo[3 * i:3 * i + 3], "impl": " ".join(a)}
+    c.cov["hybrid_jump_step_calls_compared_bitwise"] = {"total": nj, "disagreements": jdis}
+    if jdis:
+        c.corr_break("%d of %d reb_integrator_mercurius_jump_step / reb_integrator_trace_jump_step calls differ from the model (particle range of the momentum sum: N_active for testparticle_type 0, N for type 1)" % (jdis, nj), jfirst)
+
     # ---------------------------------------------------------------- tangent map tie
     nv = 5000 if c.thorough else 250
     vcases, vlines = [], []
@@ -896,7 +955,7 @@ def run_(c):
     # ---------------------------------------------------------------- one full sim.step() per integrator
     groups = [("whfast", "jacobi", "any"), ("whfast", "whds", "any"), ("saba", "-", "any"),
               ("whfast", "dh", "test"), ("whfast", "bary", "test"), ("mercurius", "-", "test"), ("trace", "-", "test")]
-    per = 600 if c.thorough else 30
+    per = 600 if c.thorough else 48
     slines, sinfo = [], []
     for integ, coord, mk in groups:
         for rep in range(per):
@@ -915,35 +974,49 @@ def run_(c):
                 o["dt"] = abs(o["dt"])          # TRACE with dt<0 is finding F10 (C01/C08)
                 o["meta"]["dtP"] = abs(o["meta"]["dtP"])
             G, mt = o["G"], o["m"]
-            if mk == "test":
-                m1 = 0.0
+            # role of the orbiting body: active (N_active=-1), type-0 test particle (N_active=1; may CARRY MASS:
+            # it is then only ignored as a source, the exact orbit has mu = G m0 - c03_mass_parameter_*,
+            # c03_hybrid_jump_lone_testparticle), type-1 semi-active particle (N_active=1, testparticle_type=1:
+            # acts like an active one, mu = G (m0+m1) where the two-body splitting is exact)
+            role = ("active", "tp0", "tp1")[rep % 3]
+            if role == "tp0":
+                m1 = rng.choice([0.0, mt * 1e-3, mt * 1e-3, mt * rng.uniform(0.05, 0.5)])
+                if integ == "trace" and m1 > mt * 1e-3:
+                    m1 = mt * 1e-3      # a heavier body is inside TRACE's own Hill-radius encounter criterion (BS, 1e-12)
+                m0 = mt
             else:
-                m1 = rng.choice([0.0, mt * 1e-12, mt * 1e-3, mt * rng.uniform(0.05, 0.5)])
-            m0 = mt - m1
+                if mk == "test":
+                    m1 = 0.0
+                else:
+                    m1 = rng.choice([0.0, mt * 1e-12, mt * 1e-3, mt * rng.uniform(0.05, 0.5)])
+                m0 = mt - m1
+            nactive, tpt = {"active": (-1, 0), "tp0": (1, 0), "tp1": (1, 1)}[role]
             sx = math.sqrt(sum(v * v for v in o["st"][:3])); sv = math.sqrt(sum(v * v for v in o["st"][3:]))
             offk = 0.0 if rep % 2 == 0 else rng.uniform(0.1, 2.0)
             off = [rng.normal() * sx * offk for _ in range(3)] + [rng.normal() * sv * offk for _ in range(3)]
             k = len(slines)
-            slines.append("step %d %s %s %s" % (k, integ, coord, " ".join(d2h(v) for v in [G, m0, m1] + o["st"] + [o["dt"]] + off)))
-            sinfo.append((integ, coord, G * (m0 + m1), o, m1 / mt, offk))
+            slines.append("step %d %s %s %d %d %s" % (k, integ, coord, nactive, tpt, " ".join(d2h(v) for v in [G, m0, m1] + o["st"] + [o["dt"]] + off)))
+            sinfo.append((integ, coord, (G * m0 if role == "tp0" else G * (m0 + m1)), o, m1 / mt, offk, role))
     c.log("one full step of %d two-body simulations (%d integrator configurations)" % (len(slines), len(groups)))
     sro = real.run(slines)
     sol = []
-    for k, (integ, coord, GM, o, mr, offk) in enumerate(sinfo):
+    for k, (integ, coord, GM, o, mr, offk, role) in enumerate(sinfo):
         ans = sro.get(str(k), "")
         t = ans.split()
         if len(t) >= 8 and t[0] not in ("exception",):
             sol.append("%d %s %s" % (k, " ".join(d2h(v) for v in [GM] + o["st"] + [o["dt"]]), " ".join(t[:6])))
     sref = run_oracle(sol)
     sworst = {}
+    rolehist = {}
     skipped_trace = 0
-    for k, (integ, coord, GM, o, mr, offk) in enumerate(sinfo):
-        name = integ + ("/" + coord if coord != "-" else "")
+    for k, (integ, coord, GM, o, mr, offk, role) in enumerate(sinfo):
+        name = integ + ("/" + coord if coord != "-" else "") + ":" + role
         ans = sro.get(str(k), "")
         t = ans.split()
-        rep = {"integrator": integ, "coordinates": coord, "G": o["G"], "m_total": o["m"], "m1_over_mtotal": mr, "state_rel": o["st"],
+        rep = {"role": role, "N_active": (-1 if role == "active" else 1), "testparticle_type": (1 if role == "tp1" else 0), "mu_expected": GM, "integrator": integ, "coordinates": coord, "G": o["G"], "m_total": o["m"], "m1_over_mtotal": mr, "state_rel": o["st"],
                "dt": o["dt"], "meta": o["meta"], "offset_scale": offk, "answer": ans[:200]}
         c.count(("step", name, e_bin(o["meta"]["e"]), dt_bin(o["meta"]["dtP"]), mr == 0))
+        rolehist[name + (":massive" if mr != 0 else ":massless")] = rolehist.get(name + (":massive" if mr != 0 else ":massless"), 0) + 1
         if ans in ("HANG", "CRASH") or len(t) < 8 or t[0] == "exception":
             c.violation("step-%s:%s" % (ans.split()[0].lower() if ans else "noanswer", name),
                         "one %s step of a two-body system: %s (e=%.6g dt/P=%.4g)" % (name, ans[:80], o["meta"]["e"], o["meta"]["dtP"]), rep)
@@ -970,7 +1043,7 @@ def run_(c):
             rep.update(err=err, allowed=unit * SAFETY * 4, reference=[h2d(x) for x in j["ref"]])
             c.violation("step-inexact:" + name, "one %s step of a two-body system is off the exact Kepler orbit by %.3g relative (allowed %.3g), e=%.6g dt/P=%.4g"
                         % (name, err, unit * SAFETY * 4, o["meta"]["e"], o["meta"]["dtP"]), rep)
-    c.cov["full_step"] = {"cases": len(slines), "worst_error_over_unit": sworst, "allowed": SAFETY * 4,
+    c.cov["full_step"] = {"cases": len(slines), "cases_per_configuration": dict(sorted(rolehist.items())), "worst_error_over_unit": sworst, "allowed": SAFETY * 4,
                           "trace_cases_skipped_because_pericentre_switch_fired": skipped_trace,
                           "not_covered": "WHFast512 (needs AVX512, not compiled here)"}
     c.cov["watchdog"] = {"hangs": real.hangs + real_h.hangs, "worker_restarts": real.restarts + real_h.restarts}
